@@ -20,7 +20,11 @@ RULE = ('cases = (a) credential decisions: the real AuthPlugin.before_upstream_c
         'orders, any header-name casing; thorough: every single-byte edit/insertion/deletion of the valid value); '
         '(b) whole connections through the real HttpProtocolHandler+HttpProxyPlugin with basic auth on: method GET/POST/CONNECT/... '
         'x valid or near-miss credentials x 0-3 generated user plugins (pass/modify/drop/reject per hook) x later requests on the '
-        'same connection x connect success/failure x random segmentation of the first request; (c) plugin load order with the auth '
+        'same connection x connect success/failure x random segmentation of the first request; (b2) authenticated connections '
+        'with a user plugin behind the auth plugin whose handle_client_request / handle_client_data / before_upstream_connection '
+        'raises ConnectionResetError / BrokenPipeError / TimeoutError / OSError (reads_teared), rejects (must_flush) or raises '
+        'ValueError, with a response chunk pending and upstream/client data and flushes arriving afterwards (every run); '
+        '(c) plugin load order with the auth '
         'plugin and user plugins (duplicates, auth plugin requested again); (d) auth_code for random --basic-auth values. '
         'A case is non-trivial when the implementation reached the credential comparison with a proxy-authorization header present '
         '(a), or a connection produced a 407 or forwarded at least one request (b); distinct = distinct inputs')
@@ -251,7 +255,7 @@ def gen_code_cases(rng, quick):
 
 def generate(rng, tier):
     quick = tier != 'thorough'
-    return gen_auth_cases(rng, quick) + gen_run_cases(rng, quick) + gen_segmented_later(rng, quick) + gen_order_cases(rng, quick) + gen_code_cases(rng, quick)
+    return gen_auth_cases(rng, quick) + gen_run_cases(rng, quick) + P.gen_oserror_drain(rng, quick, auth=True) + gen_segmented_later(rng, quick) + gen_order_cases(rng, quick) + gen_code_cases(rng, quick)
 
 
 # ------------------------------------------------------------------ implementation
